@@ -878,24 +878,24 @@ SUBCHECKS = [
              "6 levels; batch specs loop over every pattern of the last level); each with nonzero, lower_tri, "
              "asmatrix, dot, transpose, all rows / columns", timeout_q=400),
     Sub("structure_queries", check_structure_queries, strategy=lambda tier: strat_structure_queries(),
-        quick=2400, thorough=40000, isolate=True, floor=200,
+        quick=2400, thorough=30000, isolate=True, floor=200,
         rule="random 1-6 levels, blocks 1-4 x 1-4, all constructors, orders; nonzero / lower_tri / row and column "
              "subsets / transpose / reorder / slice / join"),
-    Sub("matrix_ops", check_matrix_ops, strategy=lambda tier: strat_matrix_ops(), quick=2400, thorough=40000,
+    Sub("matrix_ops", check_matrix_ops, strategy=lambda tier: strat_matrix_ops(), quick=2400, thorough=30000,
         isolate=True, floor=200,
         rule="random structures + data tensors (C/F/strided, distinct/random/rank-1): data/matrix initialisers, "
              "asmatrix formats, dot for several vector kinds, reorder, transposition"),
-    Sub("from_kvs", check_from_kvs, strategy=lambda tier: strat_from_kvs(), quick=1200, thorough=20000,
+    Sub("from_kvs", check_from_kvs, strategy=lambda tier: strat_from_kvs(), quick=1200, thorough=12000,
         isolate=True, floor=100, shards=8,
         rule="1-3 directions, pairs of knot vectors: identical, same mesh (other degree / multiplicities), nested "
              "meshes (either direction), unrelated meshes on the same interval"),
     Sub("kron_partial", check_kron_partial, strategy=lambda tier: strat_kron_partial(), quick=1200,
-        thorough=20000, isolate=True, floor=100, shards=8,
+        thorough=12000, isolate=True, floor=100, shards=8,
         rule="1-4 sparse factors (csr/csc, rectangular, explicit zeros), row subsets, restrict flag, formats"),
     Sub("index_maps_enum", check_index_maps, enum=enum_index_maps, quick=0, thorough=0, floor=100, shards=8,
         rule="exhaustive small shapes: from_seq/to_seq, reindex_to/from_multilevel, reorder/reindex_from_reordered"),
     Sub("index_maps_random", check_index_maps, strategy=lambda tier: strat_index_maps(), quick=1200,
-        thorough=20000, isolate=True, floor=100, shards=8,
+        thorough=12000, isolate=True, floor=100, shards=8,
         rule="random shapes for the index maps, get_transpose_idx_for_bidx on symmetric patterns in random order, "
              "sequential_bidx + reindex_from_multilevel + ReorderedTensorGenerator against nonzero()"),
 ]
